@@ -7,7 +7,7 @@ import (
 )
 
 // NumTactics is the number of shape constructors Tactic cycles through.
-const NumTactics = 13
+const NumTactics = 14
 
 // flipColors mirrors the position so that shapes are exercised for both colours.
 func maybeFlip(r *rand.Rand, p ref.Pos) ref.Pos {
@@ -333,6 +333,53 @@ func Tactic(r *rand.Rand, i int) (ref.Pos, bool) {
 			putFree(r, &p, []int8{ref.Queen, ref.Rook, ref.Rook, ref.Queen, ref.Bishop, ref.Knight}[r.Intn(6)])
 		}
 		p.White = r.Intn(3) != 0
+	case 13: // e.p. where the pawn that disappears (not the capturing one) shields the king on a diagonal
+		ef := r.Intn(8)
+		wf := ef + 1
+		if r.Intn(2) == 0 {
+			wf = ef - 1
+		}
+		if wf < 0 || wf > 7 {
+			return p, false
+		}
+		p.B[ref.Sq(ef, 4)] = -ref.Pawn
+		p.B[ref.Sq(wf, 4)] = ref.Pawn
+		p.EP = ref.Sq(ef, 5)
+		p.Half = 0
+		d := dirs[4+r.Intn(4)]
+		var kray, sray []int
+		for x, y := ef+d[0], 4+d[1]; x >= 0 && x < 8 && y >= 0 && y < 8; x, y = x+d[0], y+d[1] {
+			kray = append(kray, ref.Sq(x, y))
+		}
+		for x, y := ef-d[0], 4-d[1]; x >= 0 && x < 8 && y >= 0 && y < 8; x, y = x-d[0], y-d[1] {
+			sray = append(sray, ref.Sq(x, y))
+		}
+		if len(kray) == 0 || len(sray) == 0 {
+			return p, false
+		}
+		k := kray[r.Intn(len(kray))]
+		p.B[k] = ref.King
+		if r.Intn(5) != 0 { // mostly with the slider behind the pawn, sometimes without (then the capture is fine)
+			p.B[sray[r.Intn(len(sray))]] = -[]int8{ref.Bishop, ref.Queen}[r.Intn(2)]
+		}
+		if r.Intn(3) == 0 { // a second own pawn that may capture from the other side
+			if of := ef + (ef - wf); of >= 0 && of <= 7 && p.B[ref.Sq(of, 4)] == 0 {
+				p.B[ref.Sq(of, 4)] = ref.Pawn
+			}
+		}
+		bk := putFree(r, &p, -ref.King)
+		if bk < 0 || bk == p.EP || bk == ref.Sq(ef, 6) {
+			return p, false
+		}
+		if r.Intn(3) == 0 {
+			sprinkle(r, &p, 2)
+			if p.B[p.EP] != 0 || p.B[ref.Sq(ef, 6)] != 0 {
+				return p, false
+			}
+		}
+		if p.InCheck(true) { // the pawn stood between slider and king a move ago, so White cannot be in check from that line now
+			return p, false
+		}
 	case 12: // one piece pinned against two queens (or king and queen) along two different lines
 		x := ref.Sq(2+r.Intn(4), 2+r.Intn(4))
 		p.B[x] = []int8{ref.Knight, ref.Bishop, ref.Rook, ref.Pawn}[r.Intn(4)]
